@@ -38,9 +38,23 @@ def convertor_table(p: Program) -> Dict[str, ClassInfo]:
     if "CONVERTOR_TYPES" not in mod.constants:
         raise AnalysisError("baize.routing.CONVERTOR_TYPES vanished")
     d = mod.constants["CONVERTOR_TYPES"]
-    if not isinstance(d, ast.Dict):
-        raise AnalysisError("CONVERTOR_TYPES is no longer a dict literal")
     out: Dict[str, ClassInfo] = {}
+    if isinstance(d, ast.DictComp) and len(d.generators) == 1 and not d.generators[0].ifs and isinstance(d.generators[0].target, ast.Tuple) and len(d.generators[0].target.elts) == 2 \
+            and all(isinstance(t, ast.Name) for t in d.generators[0].target.elts) and isinstance(d.key, ast.Name) and d.key.id == d.generators[0].target.elts[0].id \
+            and isinstance(d.value, ast.Call) and not d.value.args and not d.value.keywords and isinstance(d.value.func, ast.Name) and d.value.func.id == d.generators[0].target.elts[1].id:
+        # {name: cls() for name, cls in TABLE} over a module-level table of (name, class) pairs
+        tbl = d.generators[0].iter
+        if isinstance(tbl, ast.Name) and isinstance(mod.constants.get(tbl.id), (ast.Tuple, ast.List)):
+            tbl = mod.constants[tbl.id]
+        if isinstance(tbl, (ast.Tuple, ast.List)) and all(isinstance(r_, (ast.Tuple, ast.List)) and len(r_.elts) == 2 and isinstance(r_.elts[0], ast.Constant) and isinstance(r_.elts[0].value, str) for r_ in tbl.elts):
+            for r_ in tbl.elts:
+                c = p.resolve_expr_to_class(mod, r_.elts[1])
+                if not isinstance(c, ClassInfo):
+                    raise AnalysisError(f"CONVERTOR_TYPES[{r_.elts[0].value!r}] does not resolve to a repository class")
+                out[r_.elts[0].value] = c
+            return out
+    if not isinstance(d, ast.Dict):
+        raise AnalysisError("CONVERTOR_TYPES is neither a dict literal nor a comprehension over a literal table of (name, class) pairs")
     for k, v in zip(d.keys, d.values):
         if not (isinstance(k, ast.Constant) and isinstance(k.value, str)):
             raise AnalysisError("CONVERTOR_TYPES key is not a string literal")
@@ -788,6 +802,10 @@ def _date_fields(p: Program, rep: Report, ci: ClassInfo, tp: FuncInfo, v, regex:
     got = []
     for a in v[2]:
         if not (a[0] == "call" and a[1] == ("builtin", "int") and len(a[2]) == 1 and a[2][0][0] == "sub" and a[2][0][1] == ("param", "value") and a[2][0][2][0] == "slice"):
+            if any(isinstance(t, tuple) and t and t[0] in ("comp", "elem", "unpack", "loopvar", "phi") for t in _subterms_all(a)):
+                # the fields come out of a table / comprehension the engine does not unroll: not decided
+                rep.undecide("R8.7", f"DateConvertor.to_python: a date field is computed as {show(a)[:60]} (slices taken from a table): which digit runs it reads is not recognised")
+                return None
             rep.violation("R8.7", construct(tp, text=f"date field {show(a)[:50]}"), where(tp), "a date field is not int(value[a:b]) of the path segment")
             return False
         sl = a[2][0][2]
